@@ -71,7 +71,8 @@ def StepOK (mh : Nat) (r : List Nat) (tr : Bool) (fs : List WFrame) (n : Nat)
     (res : MsgStream × List Nat × Option Err) : Prop :=
   (res.2.2 = none ∧ ∃ r' tr' fs', Inv mh res.1 r' tr' fs' ∧
       r ++ (expect mh tr fs).1 = res.2.1 ++ (r' ++ (expect mh tr' fs').1) ∧
-      (expect mh tr' fs').2 = (expect mh tr fs).2 ∧ (0 < n → meas r' fs' < meas r fs)) ∨
+      (expect mh tr' fs').2 = (expect mh tr fs).2 ∧ (0 < n ∨ r = [] → meas r' fs' < meas r fs) ∧
+      res.2.1.length ≤ n) ∨
   (∃ e, res.2.2 = some e ∧ res.2.1 = [] ∧ r = [] ∧ (expect mh tr fs).1 = [] ∧ e = (expect mh tr fs).2 ∧
       ((e = .eof ∨ ∃ t, e = .reserved t) → Dead res.1) ∧
       ((∃ t, e = .reserved t) → res.1.p.cc = some errFrameUnexpected))
@@ -80,7 +81,7 @@ def StepOK (mh : Nat) (r : List Nat) (tr : Bool) (fs : List WFrame) (n : Nat)
 theorem readData_step {mh : Nat} {s : MsgStream} {r : List Nat} {tr : Bool} {fs : List WFrame}
     (h : Inv mh s r tr fs) (n : Nat) (hne : s.p.u.cells ≠ []) :
     (s.readData n).2.2 = none ∧ ∃ r', Inv mh (s.readData n).1 r' tr fs ∧ r = (s.readData n).2.1 ++ r' ∧
-      (0 < n → r ≠ [] → r'.length < r.length) := by
+      (0 < n → r ≠ [] → r'.length < r.length) ∧ (s.readData n).2.1.length ≤ n := by
   obtain ⟨d, cs', hread, happ, hlen, hpos⟩ := read_data s.p.u (if s.remaining < n then s.remaining else n) hne
   have hk : d.length ≤ r.length := by
     have : (if s.remaining < n then s.remaining else n) ≤ r.length := by rw [h.rem]; split <;> omega
@@ -88,7 +89,10 @@ theorem readData_step {mh : Nat} {s : MsgStream} {r : List Nat} {tr : Bool} {fs 
   rw [h.cells] at happ
   obtain ⟨hd, hcs⟩ := prefix_split happ hk
   simp only [MsgStream.readData, hread]
-  refine ⟨trivial, r.drop d.length, ?_, ?_, ?_⟩
+  have hkn : d.length ≤ n := by
+    have : (if s.remaining < n then s.remaining else n) ≤ n := by split <;> omega
+    omega
+  refine ⟨trivial, r.drop d.length, ?_, ?_, ?_, hkn⟩
   · exact { term := h.term, cc := h.cc, cells := hcs, rem := by simp [h.rem], ptr := h.ptr, mh := h.mh, ok := h.ok, ctl := h.ctl }
   · conv => lhs; rw [← List.take_append_drop d.length r]
     rw [← hd]
@@ -209,9 +213,9 @@ theorem read_step {mh : Nat} {s : MsgStream} {r : List Nat} {tr : Bool} {fs : Li
             · intro _
               simp [Dead, MsgStream.readData, Under.read, hne, hpl.1, hterm, MsgStream.setU]
             · rintro ⟨t, h1⟩; cases h1
-          · obtain ⟨hnone, r', hinv', hsplit, hdec⟩ := readData_step hinv n hne
+          · obtain ⟨hnone, r', hinv', hsplit, hdec, hlen⟩ := readData_step hinv n hne
             left
-            refine ⟨hnone, r', false, rest, hinv', ?_, ?_, ?_⟩
+            refine ⟨hnone, r', false, rest, hinv', ?_, ?_, ?_, hlen⟩
             · rw [hexp, expect_data hk]
               simp only [List.nil_append]
               conv => lhs; rw [hsplit]
@@ -257,7 +261,7 @@ theorem read_step {mh : Nat} {s : MsgStream} {r : List Nat} {tr : Bool} {fs : Li
             left
             have hexp' : expect mh false (f :: rest) = expect mh true rest := by
               simp [expect, hk, hbig]
-            refine ⟨?_, [], true, rest, ?_, ?_, ?_, ?_⟩
+            refine ⟨?_, [], true, rest, ?_, ?_, ?_, ?_, by simp⟩
             · simp [MsgStream.parseTrailer, hbig', hrf, MsgStream.setU]
             · simp only [MsgStream.parseTrailer, hbig', ↓reduceIte, hrf, MsgStream.setU]
               exact { term := hterm, cc := hcc, cells := by simpa using hrest', rem := rfl, ptr := rfl, mh := h.mh,
@@ -275,13 +279,14 @@ theorem read_step {mh : Nat} {s : MsgStream} {r : List Nat} {tr : Bool} {fs : Li
       have := List.append_eq_nil_iff.mp this.symm
       exact hrne this.1
     simp only [MsgStream.read, hr, ↓reduceIte]
-    obtain ⟨hnone, r', hinv', hsplit, hdec⟩ := readData_step h n hne
+    obtain ⟨hnone, r', hinv', hsplit, hdec, hlen⟩ := readData_step h n hne
     left
-    refine ⟨hnone, r', tr, fs, hinv', ?_, rfl, ?_⟩
+    refine ⟨hnone, r', tr, fs, hinv', ?_, rfl, ?_, hlen⟩
     · conv => lhs; rw [hsplit]
       simp [List.append_assoc]
-    · intro hn
-      have := hdec hn hrne
-      simp only [meas]; omega
+    · rintro (hn | hn)
+      · have := hdec hn hrne
+        simp only [meas]; omega
+      · exact absurd hn hrne
 
 end Uquic.Proofs.H3
